@@ -34,6 +34,16 @@ def wake_scenarios(w):
         calls = [menu(w)[c] for c in combo]
         calls[1] = step.Tag(1, 0)
         out.append(("%s || from: %s" % (" || ".join(c.label for c in calls), WAKE_INIT[0]), WAKE_INIT[1], calls))
+    # unrelated identifiers: a deleter of the last pid of X and a storer / tagger of another pid with other content Y
+    # (they share nothing but directories)
+    import posixpath
+    needed = {posixpath.dirname(p) for p in (w.PIDREF[0], w.CIDREF[0], w.OBJ[0])}
+    sparse = dict(INITS[1][1])
+    sparse.update({str(v): (d in needed) for d, v in w.dirv.items()})      # only the directories a->X needs exist
+    for other in (step.StoreObj(1, 1), step.Tag(1, 1)):
+        calls = [step.Delete(0), other]
+        out.append(("%s || from: %s, no other shard directory exists" % (" || ".join(c.label for c in calls), INITS[1][0]),
+                    sparse, calls))
     # reference-pid lock: two taggers of one pid, a tagger of another pid releases in between
     calls = [step.Tag(1, 0), step.Tag(1, 1), step.Tag(0, 1)]
     out.append(("%s || from: %s" % (" || ".join(c.label for c in calls), WAKE_INIT[0]), WAKE_INIT[1], calls))
